@@ -122,7 +122,7 @@ impl Property for C08 {
         "C08"
     }
     fn rule(&self) -> &'static str {
-        "profile `expr`: programs of `let`s + 8 rows `0 X X (expr)` (the expression sits in the row, or in a `let` before it, or in a `let` inside a while body that runs once); expression trees of depth <= 6 over all 16 binary and 3 unary operators, ite, literals in every radix, variables bound to 64-bit boundary values, device outputs (boundary palette), equal-precedence chains, boundary shift counts, one row in six from a list of 20 shapes that invite a wrong algebraic rewrite at the edges of the 64-bit range (`a - -b / c`, `(a * c) / c`, `a / -1`, `(a + b) - b`, `(a / c) * c + a % c`, ... over MIN, MAX, -1, 0, 1 and the variables), one program in forty with 48 rows that are all `ite`s; hazards only in unselected ite branches (division by zero, signExt, random, and a variable that is bound only in a `while(0)` body and so has no value at run time); printed with minimal parentheses by the stated precedence table or redundant groups. Oracle: a program the parser rejects while it accepts the same program with every expression replaced by 0 is a violation (a valid expression was turned down); independent evaluator on the generating tree vs the untruncated expected value of a 64-bit output column. Non-trivial: an expression with >= 3 operators spanning >= 2 precedence levels, or an equal-precedence non-commutative chain, or unary under binary; distinct by source text."
+        "profile `expr`: programs of `let`s + 8 rows `0 X X (expr)` (the expression sits in the row, or in a `let` before it, or in a `let` inside a while body that runs once); expression trees of depth <= 6 over all 16 binary and 3 unary operators, ite, literals in every radix, variables bound to 64-bit boundary values (three of them called ite, random and signExt), device outputs (boundary palette), equal-precedence chains, boundary shift counts, one row in six from a list of 20 shapes that invite a wrong algebraic rewrite at the edges of the 64-bit range (`a - -b / c`, `(a * c) / c`, `a / -1`, `(a + b) - b`, `(a / c) * c + a % c`, ... over MIN, MAX, -1, 0, 1 and the variables), one program in forty with 48 rows that are all `ite`s; hazards only in unselected ite branches (division by zero, signExt, random, and a variable that is bound only in a `while(0)` body and so has no value at run time); printed with minimal parentheses by the stated precedence table or redundant groups. Oracle: a program the parser rejects while it accepts the same program with every expression replaced by 0 is a violation (a valid expression was turned down); independent evaluator on the generating tree vs the untruncated expected value of a 64-bit output column. Non-trivial: an expression with >= 3 operators spanning >= 2 precedence levels, or an equal-precedence non-commutative chain, or unary under binary; distinct by source text."
     }
     fn cases(&self, tier: Tier) -> u64 {
         match tier {
@@ -154,13 +154,14 @@ impl Property for C08 {
         let constant_device = true;
         let spec = DriverSpec { constant: true, ..DriverSpec::honest(&sigs, Ch::new(&s[2]).u64(), Palette::Boundary) };
         // variables
-        let nvars = ch.upto(5);
+        let nvars = ch.upto(9);
         // `nvz` is a variable for the parser but never gets a value: it only occurs in
         // unselected ite branches
         let mut stmts = vec![Stmt::While(Expr::lit(0), vec![Stmt::Let(LAZY_UNASSIGNED.into(), Expr::lit(1))])];
         let mut vars: Vec<(String, bool)> = vec![];
         let mut values: BTreeMap<String, i64> = BTreeMap::new();
-        for name in ["a", "b", "c", "d", "x1"].iter().take(nvars) {
+        // (a variable may be called like a function: it is one wherever no `(` follows)
+        for name in ["a", "b", "ite", "c", "random", "d", "signExt", "x1"].iter().take(nvars) {
             let v = match ch.weighted(&[3, 2, 2]) {
                 0 => *ch.choose(&BOUNDARY),
                 1 => ch.u64() as i64,
